@@ -1,14 +1,239 @@
 /-
-  Driver.C19 — line protocol front end for property C19 (stub: not built yet).
+  Driver.C19 — line protocol front end for property C19 (numeric trait contracts).
+
+  Every line is an independent case (starts with `@`):
+
+    @ from_usize <ty> <wrap> <n>            some(<v>) [der=0 | hist=none idx=0] | none
+    @ from_usize_range <ty> <wrap> <lo> <hi>  run-length encoding of the answers for lo..=hi
+    @ zero_one <ty> <wrap>                  zero=<v> one=<v> […]
+    @ op <ty> <wrap> <add|sub|mul|div|neg> <a> <b>   <v> | panic(<kind>)   (all operand forms)
+    @ ident <ty> <wrap> <a>                 0+a,a+0,1*a,a*1
+    @ fop <f32|f64> <op> <abits> <bbits>    agree       (floats: forms compared with each other only)
+    @ fident <f32|f64> <abits>              ident-ok
+    @ user …                                see Driver.C19User
+    @ trop|trsc|trneg|trpow|recop|recsc|recneg|recpow …   Trace / Record operators, see Driver.C19Wrap
+
+  <ty> is one of the 12 integer types or f32/f64; <wrap> one of plain, wrapping, saturating,
+  trace, record, trace_wrapping, record_wrapping, trace_saturating, record_saturating.
+  Float values are written as `bits:<decimal of to_bits()>`.
 -/
 import Driver.Parse
+import EasyMl.Model.Numeric
+import Driver.C19User
+import Driver.C19Wrap
 
 namespace Driver.C19
+open EasyMl EasyMl.Num
 
 abbrev State := Unit
 
 def init : State := ()
 
-def step (s : State) (_toks : List String) : State × String := (s, "unimplemented")
+inductive Kind where
+  | plain | wrapping | saturating
+  deriving DecidableEq
+
+/-- outer container of a wrapper name, and the arithmetic of the element inside -/
+inductive Outer where
+  | none | trace | record
+  deriving DecidableEq
+
+def parseWrap (s : String) : Option (Outer × Kind) :=
+  match s with
+  | "plain" => some (.none, .plain)
+  | "wrapping" => some (.none, .wrapping)
+  | "saturating" => some (.none, .saturating)
+  | "trace" => some (.trace, .plain)
+  | "record" => some (.record, .plain)
+  | "trace_wrapping" => some (.trace, .wrapping)
+  | "record_wrapping" => some (.record, .wrapping)
+  | "trace_saturating" => some (.trace, .saturating)
+  | "record_saturating" => some (.record, .saturating)
+  | _ => none
+
+def showVal (t : IntTy) (v : Val t) : String := toString (toInt t v)
+
+def showOut (t : IntTy) (o : Outcome (Val t)) : String := showOutcome (showVal t) o
+
+/-- `from_usize` through the wrapper stack, as (number, extra text) -/
+def fromUsizeVia (t : IntTy) (o : Outer) (k : Kind) (n : BitVec 64) : Option (Val t × String) :=
+  let inner : Option (Val t) := match k with
+    | .plain => fromUsize t n
+    | _ => wrapFromUsize t n
+  match o with
+  | .none => inner.map fun v => (v, "")
+  | .trace =>
+    -- Trace::constant(T::from_usize(n)?) with T the (possibly wrapped) element type
+    match inner with
+    | some v => let tr := Trace.constant (zero t) v; some (tr.number, s!" der={showVal t tr.derivative}")
+    | none => none
+  | .record =>
+    match inner with
+    | some v =>
+      let r := Record.constant v
+      some (r.number, s!" hist={if r.hasHistory then "some" else "none"} idx={r.index}")
+    | none => none
+
+/-- `none` = not a float type; `some none` cannot happen (`from_usize_float!` always succeeds) -/
+def floatFromUsize (ty : String) (n : Nat) : Option (Option Nat) :=
+  if ty = "f32" then some (f32FromUsize n) else if ty = "f64" then some (f64FromUsize n) else none
+
+/-- the driver cross-checks the explicit rounding function against the Lean runtime's own
+    conversion (`Float.ofNat` / `Float32.ofNat`); a difference is a machinery error -/
+def floatRuntime (ty : String) (n : Nat) : Nat :=
+  if ty = "f32" then (Float32.ofNat n).toBits.toNat else (Float.ofNat n).toBits.toNat
+
+def floatOne (ty : String) : Nat := if ty = "f32" then 1065353216 else 4607182418800017408
+
+def floatExtra (o : Outer) : String :=
+  match o with
+  | .none => ""
+  | .trace => " der=bits:0"
+  | .record => " hist=none idx=0"
+
+def fromUsizeLine (ty wrap : String) (n : Nat) : String :=
+  match parseWrap wrap with
+  | none => "bad-op"
+  | some (o, k) =>
+    if n ≥ 2 ^ 64 then "bad-op" else
+    match IntTy.ofName? ty with
+    | some t =>
+      match fromUsizeVia t o k (BitVec.ofNat 64 n) with
+      | some (v, extra) => s!"some({showVal t v}){extra}"
+      | none => "none"
+    | none =>
+      match floatFromUsize ty n with
+      | some (some b) =>
+        if b ≠ floatRuntime ty n then s!"MODEL-SPEC-DISAGREE roundNE {b} runtime {floatRuntime ty n}"
+        else s!"some(bits:{b}){floatExtra o}"
+      | some none => "none"
+      | none => "bad-op"
+
+/-- answer for one `n` of a range, as a small key: `none`, or the difference value − n -/
+def rangeKey (ty : String) (o : Outer) (k : Kind) (n : Nat) : String :=
+  match IntTy.ofName? ty with
+  | some t =>
+    match fromUsizeVia t o k (BitVec.ofNat 64 n) with
+    | some (v, extra) =>
+      let d := toInt t v - (n : Int)
+      (if d ≥ 0 then s!"+{d}" else toString d) ++ extra
+    | none => "none"
+  | none => "bad"
+
+def rangeLine (ty wrap : String) (lo hi : Nat) : String :=
+  match parseWrap wrap with
+  | none => "bad-op"
+  | some (o, k) =>
+    if hi ≥ 2 ^ 64 ∨ lo > hi ∨ (IntTy.ofName? ty).isNone then "bad-op" else Id.run do
+      let mut runs : Array String := #[]
+      let mut start := lo
+      let mut cur := rangeKey ty o k lo
+      for i in [lo + 1 : hi + 1] do
+        let key := rangeKey ty o k i
+        if key ≠ cur then
+          runs := runs.push s!"{start}..{i - 1}:{cur}"
+          start := i
+          cur := key
+      runs := runs.push s!"{start}..{hi}:{cur}"
+      return " ".intercalate runs.toList
+
+def zeroOneLine (ty wrap : String) : String :=
+  match parseWrap wrap with
+  | none => "bad-op"
+  | some (o, k) =>
+    match IntTy.ofName? ty with
+    | some t =>
+      let z := match k with | .plain => zero t | _ => wrapZero t
+      let u := match k with | .plain => one t | _ => wrapOne t
+      match o with
+      | .none => s!"zero={showVal t z} one={showVal t u}"
+      | .trace =>
+        let tz := Trace.constant (zero t) z
+        let tu := Trace.constant (zero t) u
+        s!"zero={showVal t tz.number} one={showVal t tu.number} der={showVal t tz.derivative},{showVal t tu.derivative}"
+      | .record =>
+        let rz := Record.constant z
+        let ru := Record.constant u
+        let h (b : Bool) := if b then "some" else "none"
+        s!"zero={showVal t rz.number} one={showVal t ru.number} hist={h rz.hasHistory},{h ru.hasHistory} idx={rz.index},{ru.index}"
+    | none =>
+      if ty = "f32" ∨ ty = "f64" then
+        let base := s!"zero=bits:0 one=bits:{floatOne ty}"
+        match o with
+        | .none => base
+        | .trace => base ++ " der=bits:0,bits:0"
+        | .record => base ++ " hist=none,none idx=0,0"
+      else "bad-op"
+
+def inRange (t : IntTy) (i : Int) : Bool := t.minInt ≤ i ∧ i ≤ t.maxInt
+
+def binOp (t : IntTy) (k : Kind) (op : String) (a b : Val t) : Option (Outcome (Val t)) :=
+  match k, op with
+  | .plain, "add" => some (pAdd t a b)
+  | .plain, "sub" => some (pSub t a b)
+  | .plain, "mul" => some (pMul t a b)
+  | .plain, "div" => some (pDiv t a b)
+  | .plain, "neg" => some (checked t (-(toInt t a)))
+  | .wrapping, "add" => some (.ok (wAdd t a b))
+  | .wrapping, "sub" => some (.ok (wSub t a b))
+  | .wrapping, "mul" => some (.ok (wMul t a b))
+  | .wrapping, "div" => some (wDiv t a b)
+  | .wrapping, "neg" => some (.ok (wNeg t a))
+  | .saturating, "add" => some (.ok (sAdd t a b))
+  | .saturating, "sub" => some (.ok (sSub t a b))
+  | .saturating, "mul" => some (.ok (sMul t a b))
+  | .saturating, "div" => some (sDiv t a b)
+  | .saturating, "neg" => some (.ok (sNeg t a))
+  | _, _ => none
+
+def opLine (ty wrap op : String) (a b : Int) : String :=
+  match parseWrap wrap, IntTy.ofName? ty with
+  | some (.none, k), some t =>
+    if !inRange t a || !inRange t b then "bad-op" else
+    match binOp t k op (ofInt t a) (ofInt t b) with
+    | some r => showOut t r
+    | none => "bad-op"
+  | _, _ => "bad-op"
+
+def identLine (ty wrap : String) (a : Int) : String :=
+  match parseWrap wrap, IntTy.ofName? ty with
+  | some (.none, k), some t =>
+    if !inRange t a then "bad-op" else
+    let z := match k with | .plain => zero t | _ => wrapZero t
+    let u := match k with | .plain => one t | _ => wrapOne t
+    let x := ofInt t a
+    match binOp t k "add" z x, binOp t k "add" x z, binOp t k "mul" u x, binOp t k "mul" x u with
+    | some r1, some r2, some r3, some r4 =>
+      s!"{showOut t r1},{showOut t r2},{showOut t r3},{showOut t r4}"
+    | _, _, _, _ => "bad-op"
+  | _, _ => "bad-op"
+
+def step (s : State) (toks : List String) : State × String :=
+  match toks with
+  | ["@", "from_usize", ty, wrap, n] =>
+    match n.toNat? with
+    | some n => (s, fromUsizeLine ty wrap n)
+    | none => (s, "bad-op")
+  | ["@", "from_usize_range", ty, wrap, lo, hi] =>
+    match lo.toNat?, hi.toNat? with
+    | some lo, some hi => (s, rangeLine ty wrap lo hi)
+    | _, _ => (s, "bad-op")
+  | ["@", "zero_one", ty, wrap] => (s, zeroOneLine ty wrap)
+  | ["@", "op", ty, wrap, op, a, b] =>
+    match a.toInt?, b.toInt? with
+    | some a, some b => (s, opLine ty wrap op a b)
+    | _, _ => (s, "bad-op")
+  | ["@", "ident", ty, wrap, a] =>
+    match a.toInt? with
+    | some a => (s, identLine ty wrap a)
+    | none => (s, "bad-op")
+  | ["@", "fop", _ty, _op, _a, _b] => (s, "agree")
+  | ["@", "fident", _ty, _a] => (s, "ident-ok")
+  | "@" :: "user" :: rest => (s, C19User.answer rest)
+  | "@" :: cmd :: rest =>
+    if ["trop", "trsc", "trneg", "trpow", "recop", "recsc", "recneg", "recpow"].contains cmd then
+      (s, C19Wrap.answer cmd rest)
+    else (s, "bad-op")
+  | _ => (s, "bad-op")
 
 end Driver.C19
